@@ -158,8 +158,10 @@ class _ForgerWrapper(object):
     def _sigtools__forger(self, obj):
         return self._signature_forger(obj=self.__wrapped__)
 
-    def __call__(self, *args, **kwargs):
-        return self.__wrapped__(*args, **kwargs)
+    def __call__(_sigtools__self, *args, **kwargs):
+        # not named self: the wrapped function may have a parameter of that
+        # name, which callers are entitled to pass by keyword
+        return _sigtools__self.__wrapped__(*args, **kwargs)
 
     def __get__(self, instance, owner):
         # apply __new__ staticmethod automatic transform
